@@ -22,6 +22,15 @@ pub struct VNode {
     pub edges: [AtomicRc<VNode>; 2],
     pub wedge: AtomicWeak<VNode>,
     pub pop_mask: u8,
+    /// what the destructor does with the API (0 = nothing), see `destructor_action`
+    pub dact: u8,
+}
+
+/// A payload without edges, used as filler garbage by destructor actions (not tracked by the
+/// shadow model beyond its block address).
+pub struct Junk(#[allow(dead_code)] pub u64);
+unsafe impl RcObject for Junk {
+    fn pop_edges(&mut self, _: &mut Vec<Rc<Self>>) {}
 }
 
 unsafe impl RcObject for VNode {
@@ -38,8 +47,95 @@ unsafe impl RcObject for VNode {
 impl Drop for VNode {
     fn drop(&mut self) {
         on_drop(self.id as usize, self.canary);
+        if self.dact != 0 {
+            destructor_action(self.dact, self.id as usize);
+        }
         self.canary = DEAD;
     }
+}
+
+static DTOR_INST: std::sync::atomic::AtomicU64 = std::sync::atomic::AtomicU64::new(1);
+
+/// API use from inside a destructor, i.e. (normally) during a collection: enter a critical
+/// section, take a Snapshot from a root cell, release filler references in bursts that cross bag
+/// boundaries, and use the Snapshot again before leaving. The Snapshot is a holding like any other:
+/// the object it refers to must not be destructed before the guard is dropped.
+fn destructor_action(dact: u8, me_obj: usize) {
+    use std::sync::atomic::Ordering::SeqCst;
+    let shared: &'static Shared = with(|s| unsafe { &*(s.shared as *const Shared) });
+    let r = (dact as usize) % NROOTS;
+    let mode = (dact >> 2) % 4;
+    let thread = {
+        let t = sched::tid();
+        if t == sched::NOT_WORKER {
+            99
+        } else {
+            t
+        }
+    };
+    let inst = (1u64 << 62) | DTOR_INST.fetch_add(1, SeqCst);
+    let g = circ::cs();
+    let snap = shared.roots[r].load(SeqCst, &g);
+    let w = circ::verif::snapshot_word(&snap);
+    let obj = with(|s| {
+        s.log(format!("t{}:dtor(obj{}):pin+load(root{})", tname(), me_obj, r));
+        s.bump("destructor_actions");
+        let o = s.obj_of_word(w);
+        if let Some(o) = o {
+            s.holds.push(SnapHold {
+                thread,
+                inst,
+                obj: o,
+                origin: "load-in-destructor",
+                weak: false,
+            });
+            s.bump("destructor_snapshots");
+        }
+        o
+    });
+    let check = |what: &str| {
+        if let (Some(o), Some(n)) = (obj, snap.as_ref()) {
+            let (id, val, canary) = (n.id, n.val, n.canary);
+            with(|s| {
+                let ob = &s.objs[o];
+                if id as usize != o || val != ob.val || canary != CANARY ^ o as u64 || ob.dropped {
+                    let d = format!(
+                        "inside the destructor of obj{} ({}): the Snapshot loaded under the destructor's own guard reads (id={}, val={:#x}, canary={:#x}) but obj{} has val={:#x} dropped={}; trace: {}",
+                        me_obj, what, id, val, canary, o, ob.val, ob.dropped, s.tail(40)
+                    );
+                    violation("C02", "O-deref", "O-deref/in-destructor", &d);
+                }
+            })
+        }
+    };
+    check("right after the load");
+    let bursts = match mode {
+        0 => 0,
+        1 => 1,
+        _ => 3,
+    };
+    for b in 0..bursts {
+        let junk: Vec<Rc<Junk>> = (0..70).map(|i| Rc::new(Junk(i))).collect();
+        with(|s| {
+            for j in &junk {
+                s.untracked.insert(addr_of_word(circ::verif::rc_word(j)));
+            }
+        });
+        drop(junk);
+        check(if b == 0 { "after the first burst of 70 releases" } else { "after a later burst of 70 releases" });
+    }
+    if mode == 3 {
+        // hand a counted reference to a live cell (ownership moves into the cell)
+        if obj.is_some() {
+            let rc = snap.counted();
+            shared.roots[(r + 1) % NROOTS].store(rc, SeqCst, &g);
+        }
+    }
+    with(|s| {
+        s.holds.retain(|h| !(h.thread == thread && h.inst == inst));
+        s.log(format!("t{}:dtor(obj{}):unpin", tname(), me_obj));
+    });
+    drop(g);
 }
 
 pub struct Shared {
@@ -90,6 +186,8 @@ pub struct Shadow {
     pub sequential: bool,
     /// origin of the most recently added rc owner per object (for signatures)
     pub rc_origin: BTreeMap<usize, &'static str>,
+    /// blocks of filler objects created by destructor actions
+    pub untracked: std::collections::BTreeSet<usize>,
 }
 
 pub static SH: Mutex<Option<Shadow>> = Mutex::new(None);
@@ -118,6 +216,7 @@ pub fn init(shared: &'static Shared, sequential: bool) {
         c: BTreeMap::new(),
         sequential,
         rc_origin: BTreeMap::new(),
+        untracked: std::collections::BTreeSet::new(),
     });
     drop(g);
     circ::verif::set_event_hook(Some(on_event));
@@ -421,6 +520,9 @@ fn on_event(kind: u32, addr: usize, aux: usize) {
         let x = match s.by_addr.get(&addr) {
             Some(x) => *x,
             None => {
+                if kind == ev::DEALLOC && s.untracked.remove(&addr) {
+                    return;
+                }
                 if kind == ev::DEALLOC {
                     let d = format!("dealloc of a block that is not allocated ({:#x}); trace: {}", addr, s.tail(40));
                     violation("C04", "O-once", "O-once/dealloc-unknown", &d);
